@@ -107,6 +107,10 @@ type pair struct {
 	stopped bool
 	cached  *raft.VerifState
 	pend    *pending // a Propose call that is blocked inside the Node
+	// removed: this node applied its own removal in this incarnation. node.go then blocks
+	// proposals until it notices a leader change ("not very sound" by its own comment), even if
+	// the node is re-added meanwhile; the oracles do not demand acceptance from then on.
+	removed bool
 }
 
 type pending struct {
@@ -160,6 +164,7 @@ func (p *pair) start() {
 		panic(err)
 	}
 	p.adv = false
+	p.removed = false
 	p.nodeRd, p.refRd = raft.Ready{}, raft.Ready{}
 	p.ns.appendQ, p.ns.applyQ, p.rs.appendQ, p.rs.applyQ = nil, nil, nil, nil
 	p.settle()
@@ -255,6 +260,9 @@ func (p *pair) key() [32]byte {
 	}
 	if p.pend != nil {
 		b = append(b, 'P')
+	}
+	if p.removed {
+		b = append(b, 'R')
 	}
 	b = qfp(b, p.rs.appendQ)
 	b = qfp(b, p.rs.applyQ)
@@ -589,6 +597,17 @@ func (p *pair) applyEntries(node bool, ents []*pb.Entry, snapIdx uint64) (css []
 				cs = p.ref.ApplyConfChange(cc)
 			}
 			css = append(css, enc(cs))
+			if !node {
+				in := false
+				for _, ids := range [][]uint64{cs.GetVoters(), cs.GetVotersOutgoing(), cs.GetLearners(), cs.GetLearnersNext()} {
+					for _, id := range ids {
+						in = in || id == self
+					}
+				}
+				if !in {
+					p.removed = true
+				}
+			}
 			// the application keeps its snapshot current across membership changes
 			if _, err := sd.st.CreateSnapshot(e.GetIndex(), cs, []byte("app")); err != nil && !errors.Is(err, raft.ErrSnapOutOfDate) {
 				panic(err)
@@ -709,7 +728,7 @@ func (p *pair) apply(o Op) (v *Violation) {
 					member = true
 				}
 			}
-			if terr == nil && member {
+			if terr == nil && member && !p.removed {
 				return p.viol("C20", "accepted-when-leader-known", "Node.Propose returned %v (blocked=%v) although a leader is known (lead %d) and RawNode.Propose accepts", err, blocked, rs.Lead)
 			}
 			if blocked && !errors.Is(err, context.Canceled) {
@@ -801,7 +820,7 @@ func (p *pair) apply(o Op) (v *Violation) {
 					member = true
 				}
 			}
-			if terr == nil && member {
+			if terr == nil && member && !p.removed {
 				return p.viol("C20", "accepted-when-leader-known", "a forwarded proposal blocked although a leader is known (lead %d) and RawNode.Step accepts it", rs.Lead)
 			}
 			break
@@ -981,7 +1000,7 @@ func (p *pair) apply(o Op) (v *Violation) {
 		default:
 			// still waiting: only legal while the reference would refuse it or this node is not a member
 			trial := p.ref.VerifClone(p.rs.st.VerifClone())
-			if trial.Propose(append([]byte(nil), pd0(p)...)) == nil && p.isMember() {
+			if trial.Propose(append([]byte(nil), pd0(p)...)) == nil && p.isMember() && !p.removed {
 				return p.viol("C20", "accepted-when-leader-known", "after %s a Propose is still blocked although a leader is known (lead %d) and RawNode.Propose accepts", o, p.state().Lead)
 			}
 		}
